@@ -105,6 +105,8 @@ static int run_sc() {
       // the reference clock
       else if (line[0] == 'U') { sscanf(line, "U %63s", a); backup->value = (acetime_t) parse_v(a); c->setup(); }
       else if (line[0] == 'F') { sscanf(line, "F %63s", a); ref->value = (acetime_t) parse_v(a); c->forceSync(); }
+      // syncNow(v): the entry point the subclasses (loop(), runCoroutine()) use when a response arrives
+      else if (line[0] == 'Y') { sscanf(line, "Y %63s", a); c->syncNow((acetime_t) parse_v(a)); }
       out += "[" + num(c->epoch()) + "," + num(c->prev()) + "," + (c->isInit() ? "1" : "0") + "," + num(c->last()) + ","
           + num(backup->sets) + "," + num(backup->lastSet) + "," + (isget ? num(reading) : std::string("null")) + "," + num(backup->requests) + "],";   // (a backup clock is written to, never asked for the time)
     }
